@@ -122,6 +122,8 @@ pub fn history(ctx: &mut Ctx) {
                 let expect = portable_network_archive::verif::collect_items(&[root.join("t").to_string_lossy().to_string()], true, false).unwrap();
                 let want: Vec<(String, String)> = expect.iter().map(|p| (Path::new(p).strip_prefix(&root).unwrap().to_string_lossy().to_string(), body(&std::fs::read(p).unwrap()))).collect();
                 if state_pairs(&state) != want { ctx.violation("C11", "a re-created archive does not hold exactly the current tree", json!({"history":steps,"after":state_pairs(&state),"tree":want})); }
+                // a re-created split archive that now fits one part is a single file again
+                archive_arg = if sbx.path("a.part1.pna").exists() && !sbx.path("a.pna").exists() { "a.part1.pna" } else { "a.pna" };
                 continue;
             }
             let (model_req, argv_s): (String, Vec<String>);
